@@ -418,3 +418,97 @@ def tab13(units, R):
         (cmp_parts(x) or (None, None, None))[2] == 92 for x in fn.nodes() if x.get('k') == 'bin')]
     R.floor('TAB13', 'functions testing for a backslash', len(scanners), 3)
     R.note('TAB13: %d conjunctions with a backslash test; scanners: %s' % (n, [f.name for f in scanners]))
+
+
+# ---- TAB19 comment delimiters --------------------------------------------------------------------------------
+
+COMMENT_DELIMS = {'skip_oneline_comment': ('//', '\n'), 'skip_multiline_comment': ('/*', '*/')}
+
+
+def tab19(units, R):
+    """A comment skipper first steps over its opener, then recognises its closer *at the cursor* (bytes 0..len-1
+    compared with the closer, nothing else) and steps over exactly the closer before returning."""
+    from ..dataflow import access
+    u = units['cJSON.c']
+    n = 0
+    for name, (opener, closer) in COMMENT_DELIMS.items():
+        fn = u.fn(name)
+        cfg = fn.cfg()
+        advs = []
+        for a in assignments(fn):
+            if a['op'] == '+=' and const_val(a['r']) is not None:
+                advs.append((a, const_val(a['r'])))
+        first = min(advs, key=lambda t: (t[0]['loc'][0], t[0]['loc'][1])) if advs else None
+        n += 1
+        R.ob('TAB19', fn, first[0] if first else None, '%s steps over its opener %r first' % (name, opener),
+             first is not None and first[1] == len(opener) and cfg.dominates(node_containing(cfg, first[0]).id, cfg.exit.id),
+             'advance by %s' % (first[1] if first else None), key='opener:' + name)
+        # the closer test: the conjunction guarding the closing advance
+        found = False
+        for s in fn.nodes():
+            if s.get('k') != 'if':
+                continue
+            parts = [cmp_parts(p) for p in _flatten(s['c'], '&&')]
+            if not parts or any(p is None or p[1] != '==' for p in parts):
+                continue
+            tests = {}
+            for (e, _op, c) in parts:
+                acc = access(e) if e.get('k') in ('idx', 'un') else None
+                if acc is None or not isinstance(acc[1], int):
+                    tests = None
+                    break
+                tests[acc[1]] = c
+            inner = [(a, k) for (a, k) in advs if any(x is a for x in walk(s['t']))]
+            rets = [x for x in walk(s['t']) if x.get('k') == 'return']
+            if tests is None or not inner or not rets:
+                continue
+            found = True
+            n += 1
+            want = {i: ord(ch) for i, ch in enumerate(closer)}
+            ok = tests == want and inner[0][1] == len(closer)
+            R.ob('TAB19', fn, s, '%s recognises its closer %r at the cursor and consumes exactly it' % (name, closer), ok,
+                 'tests %s, advance %d' % ({k: chr(v) for k, v in sorted(tests.items())}, inner[0][1]) if ok else
+                 'tests bytes %s and advances by %d; expected %s and %d' % ({k: chr(v) for k, v in sorted(tests.items())}, inner[0][1],
+                                                                         {k: chr(v) for k, v in want.items()}, len(closer)),
+                 key='closer:' + name)
+        if not found:
+            raise AnalysisBroken('TAB19: closer test of %s could not be extracted' % name)
+    R.floor('TAB19', 'comment delimiter obligations', n, 4)
+
+
+# ---- TAB20 key order is decided by the comparator functions only ------------------------------------------------
+
+KEY_COMPARATORS = {'compare_strings', 'case_insensitive_strcmp', 'compare_pointers', 'strcmp'}
+
+
+def tab20(units, R):
+    """Member keys are ordered/compared through the comparator functions (or strcmp); no function does arithmetic or
+    relational comparison on individual bytes of a node's key, which would disagree with the order the sorter used."""
+    n = 0
+    for u, fn in all_functions(units):
+        if fn.name in KEY_COMPARATORS:
+            continue
+        par = fn.parents()
+        for x in fn.nodes():
+            # an element read of X->string
+            base = None
+            if x.get('k') == 'idx':
+                base = strip_casts(x['b'])
+            elif x.get('k') == 'un' and x['op'] == '*':
+                base = strip_casts(x['e'])
+            if base is None or base.get('k') != 'mem' or base['f'] != 'string' or 'cJSON' not in u.ty(strip_casts(base['b'])['ty'])['s']:
+                continue
+            n += 1
+            p = par.get(x['id'])
+            while p is not None and p.get('k') == 'cast':
+                p = par.get(p['id'])
+            bad = p is not None and p.get('k') == 'bin' and p['op'] in ('-', '<', '>', '<=', '>=') and \
+                const_val(p['l']) is None and const_val(p['r']) is None
+            R.ob('TAB20', fn, x, 'byte of a member key %s is not used to order keys' % expr_str(x)[:40], not bad,
+                 'compared with a constant / copied' if not bad else
+                 'key bytes combined with %s: the order of keys must come from compare_strings/strcmp, as in the sorter' % p['op'],
+                 key='keybyte:%s' % expr_str(x)[:40])
+        # the discriminator of a sorted merge: assigned only from constants or comparator calls
+    R.note('TAB20: %d element reads of node keys outside the comparators' % n)
+    R.ob('TAB20', None, None, 'element reads of member keys outside the comparator functions', True, '%d found' % n, key='census',
+         file='cJSON_Utils.c', line=0)
